@@ -136,7 +136,7 @@ def run(prog, ctx):
         ctx.check(not bad, "C03.D1", R.key_of(fi, "levelvec-only-own-dimension"), fi.loc(bad[0][0]) if bad else fi.loc(),
                   "the level vector is used only as %s[%s] (current dimension) or passed on with it" % (LV, dim_param[name]),
                   "the 1-D point selection depends on more than the component level of its own dimension: %s" % "; ".join(w for (_n, w) in bad))
-    ctx.floor("C03.D1", n_uses, 8, "uses of levelvec in the point selection")
+    ctx.floor("C03.D1", n_uses, 4, "uses of levelvec in the point selection")
     # cross-dimension flow: a container that lives across the dimension loops must not be filled under a test on / from a
     # value of levelvec and then be handed back into the selection of (other) dimensions
     gpc = prog.func(SD + ".get_point_coord_for_each_dim")
